@@ -45,23 +45,31 @@ SPECS = {
         title='at most one execution/load per distinct task, only inside the needed closure, load iff cached'),
     'C04': dict(
         invs=['A_C04_Workers', 'A_C04_Type'], props=[],
-        fam=dict(quick=dict(n=3, ntypes=2, maxpars=(1, 2, UNL), maxws=(1, 2, 3), backends=('fork', 'serial'),
-                            cached='none', reqs='roots', fails='singles'),
-                 thorough=dict(n=4, ntypes=2, maxpars=(1, 2, 3, UNL), maxws=(1, 2, 3, 16), backends=('fork', 'spawn'),
-                               cached='none', reqs='roots', fails='singles', sample=15000)),
+        fam=dict(quick=[dict(n=3, ntypes=2, maxpars=(1, 2, UNL), maxws=(1, 2, 3), backends=('fork', 'serial'),
+                             cached='none', reqs='roots', fails='singles', sample=2500),
+                        dict(n=4, ntypes=1, maxpars=(2,), maxws=(3, 4), backends=('fork',), cached='none',
+                             reqs='roots', max_edges=1, must=True)],
+                 thorough=[dict(n=4, ntypes=2, maxpars=(1, 2, 3, UNL), maxws=(1, 2, 3, 16), backends=('fork', 'spawn'),
+                                cached='none', reqs='roots', fails='singles', sample=15000),
+                           dict(n=4, ntypes=2, maxpars=(2, 3), maxws=(3, 4, 16), backends=('fork', 'spawn'), cached='none',
+                                reqs='roots', max_edges=2, must=True)]),
         title='|slot| <= max_workers and per-type count <= max_parallel in every state'),
     'C05': dict(
         invs=['A_C05_AtRest'], props=[],
-        fam=dict(quick=dict(n=3, ntypes=2, maxpars=(1, 2, UNL), maxws=(1, 2, 3), backends=('fork', 'serial'),
-                            cached='none', reqs='roots', fails='singles'),
-                 thorough=dict(n=4, ntypes=2, maxpars=(1, 2, 3, UNL), maxws=(1, 2, 3, 16), backends=('fork', 'spawn'),
-                               cached='all-subsets', reqs='roots', fails='singles', sample=15000)),
+        fam=dict(quick=[dict(n=3, ntypes=2, maxpars=(1, 2, UNL), maxws=(1, 2, 3), backends=('fork', 'serial'),
+                             cached='none', reqs='roots', fails='singles', sample=2500),
+                        dict(n=4, ntypes=1, maxpars=(2,), maxws=(3, 4), backends=('fork',), cached='none',
+                             reqs='roots', max_edges=1, must=True)],
+                 thorough=[dict(n=4, ntypes=2, maxpars=(1, 2, 3, UNL), maxws=(1, 2, 3, 16), backends=('fork', 'spawn'),
+                                cached='all-subsets', reqs='roots', fails='singles', sample=15000),
+                           dict(n=4, ntypes=2, maxpars=(2, 3), maxws=(3, 4, 16), backends=('fork', 'spawn'), cached='none',
+                                reqs='roots', max_edges=2, must=True)]),
         title='at every resting point executing = min(max_workers, runnable allowed by the type limits)'),
     'C10': dict(
         invs=['A_C10_OnlyOwnFailures', 'A_C10_Continue', 'A_C10_NoValueForFailed', 'A_C10_CachedOk',
               'A_C10_FailFast'], props=[],
-        fam=dict(quick=dict(n=3, ntypes=1, maxpars=(UNL,), maxws=(1, 2), backends=('fork', 'spawn', 'serial'),
-                            cached='none', reqs='subsets', fails='all-subsets', cofs=(True, False)),
+        fam=dict(quick=dict(n=3, ntypes=2, maxpars=(1, UNL), maxws=(1, 2), backends=('fork', 'spawn', 'serial'),
+                            cached='none', reqs='subsets', fails='all-subsets', cofs=(True, False), sample=3500),
                  thorough=dict(n=3, ntypes=2, maxpars=(1, UNL), maxws=(1, 2, 3), backends=('fork', 'spawn', 'serial'),
                                cached='all-subsets', reqs='subsets', fails='all-subsets', cofs=(True, False),
                                sample=40000)),
@@ -87,26 +95,92 @@ SPECS = {
         title='results held exactly while a direct dependent still needs them; nothing held at return'),
 }
 
+LOG_BEH = ['L1', 'P1', 'L2 P1', 'P1 F', 'P1 F P1', 'E1', 'W1 P2', 'P2 F F', '']
+
+
+def beh_logs(job, rnd):
+    job['beh'] = {str(t): rnd.choice(LOG_BEH) for t in range(1, job['cfg']['n'] + 1)}
+
+
+def ctx_pair(job, rnd):
+    job['ctx_pair'] = True
+    job['actions'] = [a for a in job['actions'] if a[0] == 'rel']    # the two runs are compared entry by entry
+
+
+SPECS['C14'] = dict(
+    invs=['A_C14_ExitClass', 'A_C14_RunningFinish', 'A_C14_RunningCached', 'A_C14_CacheConsistent'],
+    props=['A_C14_NoStartAfterInterrupt'], max_int=2,
+    fam=dict(quick=dict(n=3, ntypes=1, maxpars=(UNL,), maxws=(1, 2), backends=('fork', 'spawn', 'serial'),
+                        cached='none', reqs='roots', fails='singles', cofs=(True,)),
+             thorough=dict(n=3, ntypes=2, maxpars=(1, UNL), maxws=(1, 2, 3), backends=('fork', 'spawn', 'serial'),
+                           cached='all-subsets', reqs='subsets', fails='singles', cofs=(True,), sample=6000)),
+    sweeps=dict(quick=dict(serial_cfgs=4, virt_cfgs=8, virt_lines=120, double_cfgs=4, double_lines=60),
+                thorough=dict(serial_cfgs=60, virt_cfgs=120, virt_lines=400, double_cfgs=40, double_lines=200)),
+    title='interrupt at every coordinator location of the model and every line boundary of the code')
+SPECS['C16'] = dict(
+    invs=['A_C04_Workers'], props=[], real_jobfn=ctx_pair, real_scale=2,
+    fam=dict(quick=dict(n=3, ntypes=3, maxpars=(UNL,), maxws=(1, 2, 16), backends=('fork', 'spawn', 'serial'),
+                        cached='none', reqs='roots', sample=600),
+             thorough=dict(n=4, ntypes=3, maxpars=(UNL, 2), maxws=(1, 2, 4, 16), backends=('fork', 'spawn', 'serial'),
+                           cached='all-subsets', reqs='roots', sample=6000)),
+    title='process / thread / memory facts and the filtered context observed inside run()')
+SPECS['C19'] = dict(
+    invs=['A_C19_ExactlyOnce'], props=[], logs=True, jobfn=beh_logs, real_jobfn=beh_logs,
+    fam=dict(quick=dict(n=3, ntypes=1, maxpars=(UNL,), maxws=(1, 2), backends=('fork', 'spawn', 'serial'),
+                        cached='none', reqs='roots', fails='singles'),
+             thorough=dict(n=3, ntypes=1, maxpars=(UNL, 1), maxws=(1, 2, 3), backends=('fork', 'spawn', 'serial'),
+                           cached='all-subsets', reqs='subsets', fails='singles', sample=8000)),
+    title='every record / stdout / stderr line of every task delivered exactly once before return')
+
 SIM = {'quick': dict(num=3000, cfg_sample=300, real=64), 'thorough': dict(num=60000, cfg_sample=3000, real=800)}
 
 
 def build_family(prop: str, tier: str, seed: int, key: str = 'fam') -> list:
-    f = dict(SPECS[prop][key][tier])
-    n = f.pop('n')
-    return families.family(n, seed=seed, **f)
+    fs = SPECS[prop][key][tier]
+    out = []
+    for f in (fs if isinstance(fs, list) else [fs]):
+        f = dict(f)
+        n = f.pop('n')
+        must = f.pop('must', False)
+        got = families.family(n, seed=seed, **f)
+        if must:
+            got = [dict(c, must=True) for c in got]
+        out += got
+    return out
 
 
 def make_jobs(prop, cfgs, scheds, seed, extra_defaults=0):
     rnd = random.Random(seed)
     jobs = []
     for k, (ci, hist, _exit) in enumerate(scheds):
-        jobs.append({'id': f'{prop}-s{k}', 'cfg': cfgs[ci], 'schedule': hist, 'shape_seed': rnd.randrange(9)})
+        jobs.append({'id': f'{prop}-s{k}', 'cfg': cfgs[ci], 'schedule': hist, 'shape_seed': rnd.randrange(10 ** 6)})
     # every configuration of a sample also runs under the rig's default schedule (everything finishes
     # as soon as it is observed), so that each one is driven at least once
     idx = list(range(len(cfgs)))
     rnd.shuffle(idx)
     for k, ci in enumerate(idx[:extra_defaults]):
-        jobs.append({'id': f'{prop}-d{k}', 'cfg': cfgs[ci], 'schedule': [], 'shape_seed': rnd.randrange(9)})
+        jobs.append({'id': f'{prop}-d{k}', 'cfg': cfgs[ci], 'schedule': [], 'shape_seed': rnd.randrange(10 ** 6)})
+    return jobs
+
+
+def make_sweeps(prop, cfgs, scheds, seed, sw):
+    """Line-boundary interrupt injection jobs (expanded by the worker): serial exhaustively, process
+    backends (on virtual processes) sampled, plus double interrupts."""
+    rnd = random.Random(seed + 3)
+    ser = [c for c in cfgs if c['backend'] == 'serial' and any(c['deps'])]
+    prc = [(ci, h) for ci, h, _ in scheds if cfgs[ci]['backend'] != 'serial' and any(cfgs[ci]['deps'])
+           and not any(e[0] == 'int' for e in h)]
+    rnd.shuffle(ser)
+    rnd.shuffle(prc)
+    jobs = []
+    for k, c in enumerate(ser[:sw['serial_cfgs']]):
+        jobs.append({'id': f'{prop}-ls{k}', 'cfg': c, 'schedule': [], 'shape_seed': rnd.randrange(10 ** 6), 'sweep': 'all'})
+    for k, (ci, h) in enumerate(prc[:sw['virt_cfgs']]):
+        jobs.append({'id': f'{prop}-lv{k}', 'cfg': cfgs[ci], 'schedule': h, 'shape_seed': rnd.randrange(10 ** 6),
+                     'sweep': sw['virt_lines'], 'seed': seed + k})
+    for k, (ci, h) in enumerate(prc[sw['virt_cfgs']:sw['virt_cfgs'] + sw['double_cfgs']]):
+        jobs.append({'id': f'{prop}-ld{k}', 'cfg': cfgs[ci], 'schedule': h, 'shape_seed': rnd.randrange(10 ** 6),
+                     'sweep': sw['double_lines'], 'seed': seed + k, 'double': True})
     return jobs
 
 
@@ -121,7 +195,7 @@ def make_real_jobs(prop, cfgs, scheds, seed, count, spec):
         acts = real.hist_to_actions(hist)
         if len(jobs) >= count:
             break
-        jobs.append({'id': f'{prop}-r{len(jobs)}', 'cfg': cfgs[ci], 'actions': acts, 'shape_seed': rnd.randrange(9)})
+        jobs.append({'id': f'{prop}-r{len(jobs)}', 'cfg': cfgs[ci], 'actions': acts, 'shape_seed': rnd.randrange(10 ** 6)})
     return jobs
 
 
@@ -134,7 +208,7 @@ def run(prop: str, tier: str) -> int:
         cfgs = build_family(prop, tier, seed)
         # 1. model checking through the refinement mapping
         text = harness.labrun_cfg_text(invariants=spec['invs'] + I_INVS, properties=spec['props'],
-                                       max_int=spec.get('max_int', 0))
+                                       max_int=spec.get('max_int', 0), logs=spec.get('logs', False))
         mc = harness.model_check(cfgs, text, scratch, tag=prop)
         if mc.error:
             print(f'MACHINERY: TLC failed on LabRun: {mc.error[:2000]}')
@@ -157,16 +231,26 @@ def run(prop: str, tier: str) -> int:
         sim = SIM[tier]
         rnd = random.Random(seed + 17)
         sample = cfgs if len(cfgs) <= sim['cfg_sample'] else rnd.sample(cfgs, sim['cfg_sample'])
+        sample = sample + [c for c in cfgs if c.get('must') and c not in sample]
         scheds = harness.simulate_schedules(sample, scratch, num=sim['num'], seed=seed,
                                             max_int=spec.get('max_int', 0))
         jobs = make_jobs(prop, sample, scheds, seed, extra_defaults=len(sample))
+        jrnd = random.Random(seed + 5)
+        if spec.get('jobfn'):
+            for j in jobs:
+                spec['jobfn'](j, jrnd)
+        if spec.get('sweeps'):
+            jobs += make_sweeps(prop, sample, scheds, seed, spec['sweeps'][tier])
         tp['simulate'] = round(time.time() - t1, 1)
         t1 = time.time()
         # 3. drive the code: R2 / serial in-process, and a sample on real processes (R3)
         traces = harness.run_jobs(jobs, scratch)
         tp['r2'] = round(time.time() - t1, 1)
         t1 = time.time()
-        rjobs = make_real_jobs(prop, sample, scheds, seed, sim['real'], spec)
+        rjobs = make_real_jobs(prop, sample, scheds, seed, sim['real'] * spec.get('real_scale', 1), spec)
+        if spec.get('real_jobfn'):
+            for j in rjobs:
+                spec['real_jobfn'](j, jrnd)
         from lv.rigs import real
         rtraces = real.run_real_jobs(rjobs, scratch, procs=min(harness.NPROC, 12), hashseeds=[0, 1, 2, 3])
         jobs = jobs + rjobs
@@ -176,6 +260,9 @@ def run(prop: str, tier: str) -> int:
         val = harness.validate_parallel(traces, scratch, props=prop)
         nviol = 0
         by_id = {j['id']: j for j in jobs}
+        for t in traces:
+            if 'job' in t:
+                by_id[t['tid']] = t['job']       # expanded sweep jobs
         drift = sum(1 for t in traces if t['meta'].get('skipped') or t['meta'].get('unused_actions'))
         for t in traces:
             fails = [(c, p) for c, p in val['verdicts'][t['tid']] if harness.prop_of(c) == prop]
